@@ -254,4 +254,338 @@ theorem extOk_all (e : Ext) (w : e.WF) : ExtOk e := by
   | fragment i m => exact extOk_fragment i m
   | ah a b c => exact extOk_ah a b c w
 
+/-- the chain starts with a fragment header -/
+def fragFirst : List Ext → Bool
+  | .fragment .. :: _ => true
+  | _ => false
+
+/-- the chain ends with a fragment header -/
+def fragLast (es : List Ext) : Bool :=
+  match es.getLast? with
+  | some (.fragment ..) => true
+  | _ => false
+
+/-- **a segment of the connection, IPv6 extension headers admitted**: as `Spec.TlsCapture.IsSeg`, but over IPv6 ANY chain of
+    well-formed hop-by-hop / destination options / routing / fragment (offset 0) / authentication headers may stand between
+    the IPv6 header and TCP — EXCEPT a chain that starts with a fragment header and ends with another kind: there dpkt
+    raises AttributeError (`Props.C12Dissect.Ex.attribute_aborts`; e.g. the RFC 8200 order fragment, destination options)
+    and the run aborts. -/
+def IsSegX (fl : Flow) (fromServer : Bool) (fr : Spec.FrameBuild.Frame) (t : Tcp) : Prop :=
+  fr.WF ∧ fr.upper = .tcp t ∧
+  t.sport = (if fromServer then fl.serverPort else fl.clientPort) ∧
+  t.dport = (if fromServer then fl.clientPort else fl.serverPort) ∧
+  (match fr.net with
+   | .v4 h => fl.v6 = false ∧ h.src = (if fromServer then fl.serverIp else fl.clientIp) ∧
+              h.dst = (if fromServer then fl.clientIp else fl.serverIp)
+   | .v6 h => fl.v6 = true ∧ ¬ (fragFirst h.exts = true ∧ fragLast h.exts = false) ∧
+              h.src = (if fromServer then fl.serverIp else fl.clientIp) ∧
+              h.dst = (if fromServer then fl.clientIp else fl.serverIp))
+
+theorem isSegX_of_isSeg (fl : Flow) (d : Bool) (fr : Spec.FrameBuild.Frame) (t : Tcp) (h : IsSeg fl d fr t) :
+    IsSegX fl d fr t := by
+  obtain ⟨a, b, c, e, f⟩ := h
+  refine ⟨a, b, c, e, ?_⟩
+  cases hn : fr.net with
+  | v4 h4 => rw [hn] at f; exact f
+  | v6 h6 =>
+    rw [hn] at f
+    obtain ⟨f1, f2, f3, f4⟩ := f
+    exact ⟨f1, by rw [f2]; simp [fragFirst], f3, f4⟩
+
+open TLX.Lemmas.Dissect in
+theorem lastFrag_eq (es : List Ext) (b : Bool) :
+    lastFrag es b = match es.getLast? with
+      | some e => isFrag e
+      | none => b := by
+  induction es generalizing b with
+  | nil => rfl
+  | cons e es ih =>
+    simp only [lastFrag]
+    rw [ih]
+    cases es with
+    | nil => rfl
+    | cons e' es' =>
+      rw [List.getLast?_cons_cons]
+      cases hl : (e' :: es').getLast? with
+      | none => simp at hl
+      | some x => rfl
+
+open TLX.Lemmas.Dissect in
+theorem chain_cond (es : List Ext) (p : Nat) (up : Bytes) (hp : p ≠ 44)
+    (h : ¬ (fragFirst es = true ∧ fragLast es = false)) :
+    ¬ ((encChain es p up).1 = 44 ∧ lastFrag es false = false) := by
+  rintro ⟨h1, h2⟩
+  apply h
+  constructor
+  · cases es with
+    | nil => simp [encChain] at h1; exact absurd h1 hp
+    | cons e es => cases e <;> simp [encChain, Ext.proto] at h1 <;> rfl
+  · rw [lastFrag_eq] at h2
+    unfold fragLast
+    cases hl : es.getLast? with
+    | none => rfl
+    | some e =>
+      rw [hl] at h2
+      cases e <;> simp [isFrag] at h2 <;> rfl
+
+theorem dissect_segX (fl : Flow) (d : Bool) (fr : Spec.FrameBuild.Frame) (t : Tcp) (h : IsSegX fl d fr t) :
+    dissect fr.encode = .ok (viewOf fr) := by
+  obtain ⟨hwf, hu, _, _, hnet⟩ := h
+  unfold viewOf
+  cases hn : fr.net with
+  | v4 h4 => exact dissect_build_v4 fr h4 hn hwf
+  | v6 h6 =>
+    rw [hn] at hnet
+    obtain ⟨_, hex, _, _⟩ := hnet
+    have hw6 : ∀ e ∈ h6.exts, e.WF := by
+      have := hwf.2.2.2
+      rw [hn] at this
+      exact this.2.2.1
+    refine dissect_build_v6 fr h6 hn hwf (fun e he => extOk_all e (hw6 e he)) ?_
+    rw [hu]
+    exact chain_cond _ _ _ (by simp [Upper.proto]) hex
+
+theorem pktOf_segX (fl : Flow) (d : Bool) (fr : Spec.FrameBuild.Frame) (t : Tcp) (h : IsSegX fl d fr t) (tag : Nat) :
+    pktOf tag (viewOf fr) =
+      ⟨.tcp, if d then serverEp fl else clientEp fl, if d then clientEp fl else serverEp fl, t.payload, true, tag⟩ := by
+  obtain ⟨_, hu, hsp, hdp, hnet⟩ := h
+  unfold viewOf
+  cases hn : fr.net with
+  | v4 h4 =>
+    rw [hn] at hnet
+    obtain ⟨_, hs, hd⟩ := hnet
+    simp only [pktOf, hu, transportOf, hs, hd, hsp, hdp, clientEp, serverEp]
+    cases d <;> rfl
+  | v6 h6 =>
+    rw [hn] at hnet
+    obtain ⟨_, _, hs, hd⟩ := hnet
+    simp only [pktOf, hu, transportOf, hs, hd, hsp, hdp, clientEp, serverEp]
+    cases d <;> rfl
+
+theorem infoOf_segX (fl : Flow) (d : Bool) (fr : Spec.FrameBuild.Frame) (t : Tcp) (h : IsSegX fl d fr t) (us : Nat) :
+    infoOf us (viewOf fr) = ⟨t.seq, us, fr.srcMac, fr.dstMac, fl.v6⟩ := by
+  obtain ⟨_, hu, _, _, hnet⟩ := h
+  unfold viewOf
+  cases hn : fr.net with
+  | v4 h4 =>
+    rw [hn] at hnet
+    simp only [infoOf, hu, transportOf, hnet.1]
+  | v6 h6 =>
+    rw [hn] at hnet
+    simp only [infoOf, hu, transportOf, hnet.1]
+
+/-- the checksum functions on a segment of the connection: no exception, and the RFC 1071 receiver's verdict -/
+theorem verdict_segX (fl : Flow) (d : Bool) (fr : Spec.FrameBuild.Frame) (t : Tcp) (h : IsSegX fl d fr t) :
+    ∀ x, viewOf fr = .ip x →
+      Ingest.verdict x = .ok (if t.payload = [] then none else some (decide (CsumValid fr t))) := by
+  obtain ⟨hwf, hu, _, _, hnet⟩ := h
+  obtain ⟨_, _, wu, wn⟩ := hwf
+  have hlen : t.encode.length = 20 + t.options.length + t.payload.length := Lemmas.Dissect.tcp_encode_length t
+  intro x hx
+  unfold viewOf at hx
+  cases hn : fr.net with
+  | v4 h4 =>
+    rw [hn] at hx wn
+    obtain ⟨w1, w2, _, _, w5⟩ : h4.WF fr.upper.encode.length := wn
+    cases hx
+    rw [hu] at w5 ⊢
+    simp only [Upper.encode] at w5
+    have := verdict_tcp ⟨false, fr.srcMac, fr.dstMac, h4.src, h4.dst, 6, t.encode, .tcp t.sport t.dport t.seq t.ack t.payload⟩
+      t.sport t.dport t.seq t.ack t.payload rfl rfl (by simp [w1]) (by simp [w2]) (by simp only; omega)
+      (by simp only [Bool.false_eq_true, if_false]; omega)
+    simp only [Upper.proto, Upper.encode, transportOf]
+    rw [this]
+    simp only [CsumValid, hn]
+  | v6 h6 =>
+    rw [hn] at hx wn
+    obtain ⟨w1, w2, _, _, _, _, w7⟩ : h6.WF (encChain h6.exts fr.upper.proto fr.upper.encode).2.length := wn
+    cases hx
+    rw [hu] at w7 ⊢
+    simp only [Upper.encode, Upper.proto] at w7
+    have hge : t.encode.length ≤ (encChain h6.exts 6 t.encode).2.length := by
+      generalize h6.exts = es
+      induction es with
+      | nil => simp [encChain]
+      | cons e es ih => simp only [encChain, List.length_append]; omega
+    have := verdict_tcp ⟨true, fr.srcMac, fr.dstMac, h6.src, h6.dst, 6, t.encode, .tcp t.sport t.dport t.seq t.ack t.payload⟩
+      t.sport t.dport t.seq t.ack t.payload rfl rfl (by simp [w1]) (by simp [w2]) (by simp only; omega)
+      (by simp only [if_true]; omega)
+    simp only [Upper.proto, Upper.encode, transportOf]
+    rw [this]
+    simp only [CsumValid, hn]
+
+/-- with or without `-c`: a segment with a valid checksum (or without payload) is handed on with `csumOk = true` -/
+theorem csumBit_segX (fl : Flow) (c d : Bool) (fr : Spec.FrameBuild.Frame) (t : Tcp) (h : IsSegX fl d fr t)
+    (hv : c = true → t.payload ≠ [] → CsumValid fr t) : csumBit c (viewOf fr) = true := by
+  cases c with
+  | false =>
+    unfold viewOf
+    cases fr.net <;> rfl
+  | true =>
+    have hvd := verdict_segX fl d fr t h
+    cases hvo : viewOf fr with
+    | notIp => rfl
+    | ip x =>
+      simp only [csumBit, if_true, hvd x hvo]
+      by_cases hp : t.payload = []
+      · simp [hp]
+      · simp [hp, hv rfl hp]
+
+/-! ### 3. the described capture -/
+
+/-- a foreign packet (`Props.C01File.Foreign`: anything that is not a data segment of the connection's 4-tuple; its
+    checksums may be right or wrong); with `-c` the checksum functions do not raise on it -/
+def ForeignC (fl : Flow) (c : Bool) (e : CapEv) : Prop :=
+  Foreign fl e ∧ (c = true → ∀ x, e.d = .ip x → ∃ v, Ingest.verdict x = .ok v)
+
+/-- the capture, sender side: segments of the connection (`IsSegX`; with `-c` every data segment carries a valid TCP
+    checksum) and foreign packets -/
+def DescribedX (fl : Flow) (c : Bool) (evs : List CEv) : Prop :=
+  ∀ ev ∈ evs, match ev with
+    | .seg _ d fr t => IsSegX fl d fr t ∧ (c = true → t.payload ≠ [] → CsumValid fr t)
+    | .foreign e => ForeignC fl c e
+
+theorem describedX_of_described (fl : Flow) (evs : List CEv) (h : Described fl evs) : DescribedX fl false evs := by
+  intro ev hev
+  have := h ev hev
+  cases ev with
+  | seg t d fr tcp => exact ⟨isSegX_of_isSeg fl d fr tcp this, fun hc => by cases hc⟩
+  | foreign e => exact ⟨this, fun hc => by cases hc⟩
+
+theorem capOkC_of_describedX (fl : Flow) (c : Bool) (evs : List CEv) (h : DescribedX fl c evs)
+    (ht : ∀ e ∈ evs.map CEv.cap, Ingest.isMinusOne e.t = false) : CapOkC c (evs.map CEv.cap) := by
+  intro e he
+  refine ⟨?_, ht e he, ?_⟩
+  · simp only [List.mem_map] at he
+    obtain ⟨ev, hev, rfl⟩ := he
+    have := h ev hev
+    cases ev with
+    | seg t d fr tcp => exact dissect_segX fl d fr tcp this.1
+    | foreign e => exact this.1.1
+  · simp only [List.mem_map] at he
+    obtain ⟨ev, hev, rfl⟩ := he
+    have := h ev hev
+    intro hc x hx
+    cases ev with
+    | seg t d fr tcp => exact ⟨_, verdict_segX fl d fr tcp this.1 x hx⟩
+    | foreign e => exact this.2 hc x hx
+
+theorem tcpView_frame_c (o : Opts) (p : Pkt) :
+    tcpView o [(.frame p : MainLoop.Item Keylog.Key)] =
+      if p.l4 = .tcp ∧ p.payload ≠ [] ∧ ¬ (o.checksumTest = true ∧ p.csumOk = false) then [p] else [] := by
+  simp only [Spec.Demux.tcpView, List.filterMap_cons, List.filterMap_nil, classify]
+  cases hl : p.l4 with
+  | tcp =>
+    cases hp : p.payload with
+    | nil => simp
+    | cons b bs =>
+      cases hc : o.checksumTest <;> cases hk : p.csumOk <;> simp
+  | udp =>
+    cases hp : p.payload with
+    | nil => simp
+    | cons b bs =>
+      by_cases hq : (o.checksumTest && !p.csumOk) = true
+      · simp [hq]
+      · by_cases hq2 : (decide ((b.toNat &&& 64) >>> 6 = 1) || o.greasy) = true <;> simp [hq, hq2]
+  | other => simp
+
+/-- the TLS-relevant packets of the connection's flow, with or without `-c`: its data segments — every one passes the
+    checksum test; a foreign frame that fails it changes nothing for this flow -/
+theorem flow_filter_c (fl : Flow) (o : Opts) (evs : List CEv) (h : DescribedX fl o.checksumTest evs) (n : Nat) :
+    (tcpView o (itemsFromC o.checksumTest n (evs.map CEv.cap))).filter (sameFlow (refPkt fl)) = flowPkts fl n evs := by
+  induction evs generalizing n with
+  | nil => rfl
+  | cons ev rest ih =>
+    have hrest := ih (fun x hx => h x (by simp [hx])) (n + 1)
+    have hev := h ev (by simp)
+    rw [List.map_cons, itemsFromC, tcpView_cons, List.filter_append, hrest, tcpView_frame_c o]
+    cases ev with
+    | seg t d fr tcp =>
+      obtain ⟨hs, hv⟩ : IsSegX fl d fr tcp ∧ (o.checksumTest = true → tcp.payload ≠ [] → CsumValid fr tcp) := hev
+      have hb := csumBit_segX fl o.checksumTest d fr tcp hs hv
+      have hp : pktOfC o.checksumTest n (viewOf fr) =
+          ⟨.tcp, if d then serverEp fl else clientEp fl, if d then clientEp fl else serverEp fl, tcp.payload, true, n⟩ := by
+        simp only [pktOfC, hb, pktOf_segX fl d fr tcp hs n]
+      simp only [CEv.cap, hp, flowPkts]
+      by_cases hpl : tcp.payload = []
+      · simp [hpl]
+      · simp [hpl, sameFlow_ref]
+    | foreign e =>
+      have hev : Foreign fl e := hev.1
+      simp only [flowPkts]
+      show List.filter (sameFlow (refPkt fl))
+          (if (pktOfC o.checksumTest n e.d).l4 = MainLoop.L4.tcp ∧ (pktOfC o.checksumTest n e.d).payload ≠ [] ∧
+              ¬ (o.checksumTest = true ∧ (pktOfC o.checksumTest n e.d).csumOk = false)
+            then [pktOfC o.checksumTest n e.d] else []) ++ flowPkts fl (n + 1) rest = flowPkts fl (n + 1) rest
+      by_cases hcond : (pktOfC o.checksumTest n e.d).l4 = MainLoop.L4.tcp ∧ (pktOfC o.checksumTest n e.d).payload ≠ [] ∧
+          ¬ (o.checksumTest = true ∧ (pktOfC o.checksumTest n e.d).csumOk = false)
+      · have hsf := hev.2 n hcond.1 hcond.2.1
+        have hsf' : sameFlow (refPkt fl) (pktOfC o.checksumTest n e.d) = false := hsf
+        rw [if_pos hcond]
+        simp [hsf']
+      · rw [if_neg hcond]
+        rfl
+
+open TLX.Lemmas.Capstone in
+theorem dirSegs_flow_x (fl : Flow) (c : Bool) (hne : clientEp fl ≠ serverEp fl) (d : Bool) (evs : List CEv)
+    (hd : DescribedX fl c evs) (n : Nat) (info : Nat → Pipeline.Info)
+    (hinfo : ∀ tag, n ≤ tag → info tag = Ingest.lookup (infosFrom n (evs.map CEv.cap)) tag) :
+    (dirSegs info (serverEp fl) d (flowPkts fl n evs)).map Props.C05.wire = dirWires d evs := by
+  induction evs generalizing n with
+  | nil => rfl
+  | cons ev rest ih =>
+    have hrest := ih (fun x hx => hd x (by simp [hx])) (n + 1) (fun tag ht => by
+      rw [hinfo tag (by omega), List.map_cons, infosFrom, Lemmas.Export.lookup_cons_ne _ _ _ _ (by omega)])
+    have hev := hd ev (by simp)
+    cases ev with
+    | foreign e => simpa [flowPkts, dirWires] using hrest
+    | seg t d' fr tcp =>
+      have hev : IsSegX fl d' fr tcp := hev.1
+      have hi : info n = ⟨tcp.seq, (CEv.seg t d' fr tcp).cap.us, fr.srcMac, fr.dstMac, fl.v6⟩ := by
+        rw [hinfo n (Nat.le_refl _), List.map_cons, infosFrom, Lemmas.Export.lookup_cons_eq]
+        exact infoOf_segX fl d' fr tcp hev _
+      by_cases hp : tcp.payload = []
+      · simpa [flowPkts, dirWires, hp] using hrest
+      · simp only [flowPkts, hp, if_false, dirWires, ne_eq, not_false_eq_true, true_and]
+        simp only [dirSegs, List.filter_cons] at hrest ⊢
+        have hsrc : ((if d' then serverEp fl else clientEp fl) == serverEp fl) = d' := by
+          cases d' <;> simp [hne]
+        by_cases hdd : d' = d
+        · subst hdd
+          simp only [hsrc, beq_self_eq_true, if_true, List.map_cons, Props.C05.wire, hi, hrest]
+        · have : (d' == d) = false := by simpa using hdd
+          simp only [hsrc, this, Bool.false_eq_true, if_false, hdd, hrest]
+
+open TLX.Props.C01Capstone in
+/-- `Props.C01File.described_session` without its restrictions: any `-c`, extension headers -/
+theorem described_session_x (fl : Flow) (hne : clientEp fl ≠ serverEp fl) (evs : List CEv) (o : Opts)
+    (hd : DescribedX fl o.checksumTest evs) (hsp : o.ports.contains (fl.serverPort : Int) = true)
+    (hcp : o.ports.contains (fl.clientPort : Int) = false) (p0 : Pkt) (rest : List Pkt)
+    (hfp : flowPkts fl 0 evs = p0 :: rest) :
+    (tcpView o (itemsFromC o.checksumTest 0 (evs.map CEv.cap))).filter (sameFlow (refPkt fl)) = p0 :: rest ∧
+    candidate o p0 = true ∧
+    (sessionOf (evs.map CEv.cap) o p0 rest).server = serverEp fl ∧
+    (sessionOf (evs.map CEv.cap) o p0 rest).client = clientEp fl ∧
+    ∀ streams, WiresInOrder evs streams →
+      DeliveredInOrder (capInfo (evs.map CEv.cap)) (sessionOf (evs.map CEv.cap) o p0 rest) streams := by
+  have hF := flow_filter_c fl o evs hd 0
+  rw [hfp] at hF
+  obtain ⟨d, pl, tag, hp0⟩ := flowPkts_shape fl evs 0 p0 (by rw [hfp]; simp)
+  have hr := roles_of_flow fl o.ports hsp hcp d pl true tag o rfl
+  simp only at hr
+  rw [← hp0] at hr
+  obtain ⟨hroles, hcand⟩ := hr
+  have hsrv : (sessionOf (evs.map CEv.cap) o p0 rest).server = serverEp fl := by
+    simp only [sessionOf]; exact congrArg Prod.fst hroles
+  have hcli : (sessionOf (evs.map CEv.cap) o p0 rest).client = clientEp fl := by
+    simp only [sessionOf]; exact congrArg Prod.snd hroles
+  refine ⟨hF, hcand, hsrv, hcli, ?_⟩
+  intro streams hw dir
+  obtain ⟨⟨isn, hio⟩, hl⟩ := hw dir
+  refine ⟨⟨isn, ?_⟩, hl⟩
+  rw [hsrv]
+  have hpk : (sessionOf (evs.map CEv.cap) o p0 rest).pkts = flowPkts fl 0 evs := by rw [hfp]; rfl
+  rw [hpk, dirSegs_flow_x fl o.checksumTest hne dir evs hd 0 (capInfo (evs.map CEv.cap)) (fun tag _ => rfl)]
+  exact hio
+
 end TLX.Lemmas.C01Full
